@@ -39,6 +39,7 @@ type dg struct {
 
 type scenario struct {
 	Backlog    int     `json:"backlog"`
+	Zoned      bool    `json:"zoned,omitempty"` // the remotes are link-local IPv6 addresses with a zone ([fe80::1%eth0]:port): the zone is part of who the remote is
 	SockBuf    int     `json:"sockBuf,omitempty"` // ListenConfig.ReadBufferSize / WriteBufferSize: a wish for the operating system's socket buffers, nothing the listener itself may enforce
 	Filter     bool    `json:"filter"`
 	Batch      bool    `json:"batch"`
@@ -140,6 +141,9 @@ func gen(r *harn.Rng, tier string) interface{} {
 	}
 	sc.DoubleClose = r.Bool(0.3)
 	sc.SamePort = r.Bool(0.3)
+	if !sc.SamePort && r.Bool(0.12) {
+		sc.Zoned = true
+	}
 	sc.Waiters = r.Pick(0, 0, 0, 1, 2, 3)
 	if sc.Batch && r.Bool(0.4) {
 		sc.TickClose = true
@@ -912,6 +916,9 @@ func tagKey(p []byte) string {
 func peerAddr(sc *scenario, i int) *net.UDPAddr {
 	if sc.SamePort {
 		return &net.UDPAddr{IP: net.IPv4(127, byte(i), 7, 9), Port: 7001}
+	}
+	if sc.Zoned {
+		return &net.UDPAddr{IP: net.ParseIP("fe80::1"), Port: 7001 + i, Zone: "eth0"}
 	}
 	return &net.UDPAddr{IP: net.IPv4(127, 0, 0, 1), Port: 7001 + i}
 }
